@@ -1,7 +1,7 @@
 """C01 — single-layer Galerkin entries equal the 4-fold heat-kernel integral."""
 from ..common import seed_rng
 from ..formulas_tie import validate
-from ..slchecks import RealOps, aspect, corr_bilform, describe, dummy_children, ok_aspect, random_real_mesh
+from ..slchecks import RealOps, aspect, corr_bilform, describe, dummy_children, ok_aspect, random_real_mesh, seam_and_corner_pairs
 from .C04 import translate  # noqa: F401  (same generated formulas)
 
 PROP_MODS = ['Stbem.Props.C01']
@@ -56,6 +56,9 @@ def search(res, tier, boost=False):
             for k in kids['quarters'][:2] + kids['time'][:1] + kids['space'][1:]:
                 if ok_aspect(k):
                     pairs += [(e, k), (k, e)]
+        # configurations the panel recursion treats specially (seam with all size ratios, corners, nested)
+        pairs += [(a, b) for a, b, _ in seam_and_corner_pairs(rng, gamma, 10 if tier == 'quick' else 40)
+                  if ok_aspect(a) and ok_aspect(b)]
         for te, tr in pairs:
             if te.time_interval[1] <= tr.time_interval[0]:
                 continue
